@@ -372,11 +372,21 @@ class Explorer:
             res.status = "ok"
         except PathAbort:
             res.status = "abort"
+        except Unsupported as e:
+            # this path cannot be finished symbolically: remember it (the run is inconclusive) but keep exploring;
+            # a model of its prefix is still replayed on the real library by the runner
+            if "max depth" in _b.str(e):
+                raise
+            res.status = "unsupported"
+            tb = traceback.extract_tb(e.__traceback__)
+            try:
+                inputs = self.model_inputs()
+            except BaseException:
+                inputs = None
+            res.exc = ("Unsupported", _b.str(e)[:300], "%s:%d" % (tb[-1].filename, tb[-1].lineno) if tb else "?", inputs)
         except PathTimeout:
             raise Unsupported("a single path ran longer than %d s (the code under test may loop forever on this input class); decisions so far: %d"
                               % (PATH_TIMEOUT_S, len(self.decisions)))
-        except Unsupported:
-            raise
         except Exception as e:  # an exception escaping the harness: candidate finding
             res.status = "exc"
             tb = traceback.extract_tb(e.__traceback__)
